@@ -232,17 +232,21 @@ GeomWhy(ev, st) ==
 ShardsEff(ev, st) ==
     IF ev.out = "panic" /\ st.phase = "wild" THEN [why |-> "ok", st |-> st]
     ELSE IF ev.out # "ret" THEN [why |-> "outcome", st |-> st]
-    ELSE LET w == ProjWhy(ev, st, ev.bits)
+    ELSE LET w == IF st.phase = "wild" THEN "ok"      \* stale graph parameters of a refused / meaningless set-up
+                  ELSE ProjWhy(ev, st, ev.bits)
          IN  [why |-> w,
               st  |-> [st EXCEPT !.phase = "sharded", !.shardBits = ev.bits, !.nkeys = ev.n]]
 
 \* The set-ups of the property are those reachable the way VBuilder::try_seed
 \* makes them: set_up_shards(n, eps), then set_up_graphs(n, max_shard) for the
 \* same n with max_shard the size of the largest of 2^shardBits shards holding
-\* n keys, i.e. ceil(n / 2^shardBits) <= max_shard <= n.
+\* n keys, i.e. ceil(n / 2^shardBits) <= max_shard <= n; n below 2^50 (no
+\* logic is documented beyond; in release builds the arithmetic of a set-up
+\* beyond that wraps instead of panicking).
 InSetupDomain(ev, st) ==
     /\ st.phase \in {"sharded", "ready"}
     /\ ev.n = st.nkeys
+    /\ WLess(ev.n, CapAny)
     /\ (Sharding(st.logic) =>
           /\ WLeq(ev.msv, ev.n)
           /\ WLeq(ev.n, WMul(ev.msv, WPow2(st.shardBits))))
@@ -253,20 +257,20 @@ GraphsEff(ev, st) ==
          \* shard) or outside the domain (C12: a panic is not an abort)
          [why |-> IF ~InSetupDomain(ev, st) THEN "ok"
                   ELSE IF Vertex32(st.logic, st.sigw) /\ (WLeq(Cap32, ev.msv) \/ WLeq(Cap32, ev.n)) THEN "ok"
-                  ELSE IF WLeq(CapAny, ev.n) THEN "ok"
                   ELSE "outcome",
           st  |-> [st EXCEPT !.phase = "wild"]]
     ELSE IF ev.out # "ret" THEN [why |-> "outcome", st |-> st]
+    ELSE IF ~InSetupDomain(ev, st)
+    THEN \* outside the domain nothing is required of the values (C12 only)
+         [why |-> "ok", st |-> [st EXCEPT !.phase = "wild"]]
     ELSE LET w1 == ProjWhy(ev, st, st.shardBits)
              w2 == GeomWhy(ev, st)
          IN  [why |-> IF w1 # "ok" THEN w1 ELSE w2,
-              st  |-> [st EXCEPT !.phase = IF InSetupDomain(ev, st) THEN "ready"
-                                           ELSE IF @ = "ready" THEN "sharded" ELSE @,
-                                 !.nv = ev.nv, !.nsk = ev.nsk, !.geom = ev.geom]]
+              st  |-> [st EXCEPT !.phase = "ready", !.nv = ev.nv, !.nsk = ev.nsk, !.geom = ev.geom]]
 
 \* reload (C15) and `state`: nothing changes
 SameEff(ev, st) ==
-    IF ev.out = "panic" /\ st.phase = "wild" THEN [why |-> "ok", st |-> st]
+    IF ev.out \in {"ret", "panic"} /\ st.phase = "wild" /\ ~("ioerr" \in DOMAIN ev) THEN [why |-> "ok", st |-> st]
     ELSE IF ev.out # "ret" THEN [why |-> "outcome", st |-> st]
     ELSE IF "ioerr" \in DOMAIN ev THEN [why |-> "reload-failed", st |-> st]
     ELSE LET w == ProjWhy(ev, st, st.shardBits)
